@@ -384,6 +384,26 @@ func fmtOperandsRule(c *Ctx, r *R) {
 			if encl == nil || o == nil {
 				return true
 			}
+			// every value stored into the operand slice by index
+			ast.Inspect(encl.Body, func(m ast.Node) bool {
+				as, ok := m.(*ast.AssignStmt)
+				if !ok || len(as.Lhs) != len(as.Rhs) {
+					return true
+				}
+				for i, l := range as.Lhs {
+					ix, ok := unparen(l).(*ast.IndexExpr)
+					if !ok {
+						continue
+					}
+					if id, ok := unparen(ix.X).(*ast.Ident); !ok || c.Obj(id) != o {
+						continue
+					}
+					n++
+					raw := isNamed(c.TypeOf(as.Rhs[i]), "Value")
+					r.check(!raw, "fmt operand "+name, c.Pos(as), "operands are converted to Go values before formatting", "the shim around "+c.CalleeName(call)+" passes the VM's Value struct as a formatting operand ("+c.Src(as.Rhs[i])+"): only %v and %s work; fmt.Sprintf(\"%d %5.2f %x %c %t\", 42, 3.14159, 255, 'A', true) prints the struct's fields instead of `42  3.14 ff A true`")
+				}
+				return true
+			})
 			// every value appended to the operand slice
 			ast.Inspect(encl.Body, func(m ast.Node) bool {
 				ap, ok := m.(*ast.CallExpr)
